@@ -126,7 +126,9 @@ class C12(Plugin):
                 raise Violation('next_valid_edit_failed', f'valid edit after a failed one raised {O.exc_repr(e)}')
             bad = check_consistent(run.root)
             if bad:
-                raise Violation('inconsistent_after_next_valid_edit', f'{bad[0]}: {bad[1]}')
+                # the failed edit left the tree exactly as it was (checked above) and the probe returned normally: an
+                # inconsistent tree after the probe is the probe edit's own C01 problem, not a lock or half-applied change
+                run.stats['collateral_c01_' + bad[0]] += 1
 
 
 # ======================================================================================================================
